@@ -123,3 +123,113 @@ pub fn gen_c06(out: &mut dyn Write, thorough: bool, seed: u64) {
         }
     }
 }
+
+/// C08: a used sentence behaves like a fresh one. History ops are simulated on the real code while generating so that
+/// indices are valid and `fill` is only issued where the documentation allows it (predictor built with predict_tags).
+pub fn gen_c08(out: &mut dyn Write, thorough: bool, seed: u64) {
+    use crate::model::{gen_tag_models, gen_text_tags};
+    use crate::pred::build_pred;
+    let mut r = Rng::new(seed ^ 0xC08);
+    let opts = GenOpts { windows: &[1, 2, 3, 4, 9], max_ngrams: 5, max_words: 3, max_word_len: 4 };
+    let n_groups = if thorough { 4000 } else { 150 };
+    let per_group = if thorough { 12 } else { 8 };
+    for _ in 0..n_groups {
+        // four predictors: A tags+scores, B another model without tag prediction, C tags without scores, D tag prediction on a model without tag models
+        let (mut m1, alpha) = gen_model(&mut r, &opts);
+        gen_tag_models(&mut r, &mut m1, &alpha, 3);
+        let (m2, _) = gen_model(&mut r, &opts);
+        let specs = vec![
+            format!("{}^11", m1.to_text()),
+            format!("{}^00", m2.to_text()),
+            format!("{}^10", m1.to_text()),
+            format!("{}^11", m2.to_text()),
+        ];
+        let can_fill = [true, false, true, true];
+        let built: Vec<_> = specs.iter().map(|s| build_pred(s).1).collect();
+        if built.iter().any(|b| b.is_err()) {
+            continue;
+        }
+        let preds: Vec<vaporetto::Predictor> = built.into_iter().map(|b| b.unwrap()).collect();
+        for _ in 0..per_group {
+            let mut s = vaporetto::Sentence::default();
+            let mut ops: Vec<String> = vec![];
+            let mut cur: Option<usize> = None;
+            let len = r.range(0, if thorough { 12 } else { 8 }) as usize;
+            for _ in 0..len {
+                match r.below(10) {
+                    0 | 1 | 2 => {
+                        let kind = r.below(3);
+                        let text = if r.chance(1, 4) {
+                            ["", "a\0b", " a", "a  b", "a|", "\\"][r.below(6)].to_string()
+                        } else {
+                            let base = gen_text_tags(&mut r, &m1, &alpha, 8);
+                            match kind {
+                                0 => base,
+                                1 => base.chars().map(|c| if c == ' ' || c == '/' || c == '\\' { format!("\\{c}") } else { c.to_string() }).collect::<Vec<_>>().join(if r.chance(1, 2) { " " } else { "" }) + if r.chance(1, 3) { "/t1/t2" } else { "" },
+                                _ => base.chars().map(|c| c.to_string()).collect::<Vec<_>>().join(*r.pick(&["-", "|", " "])) + if r.chance(1, 3) { "/p" } else { "" },
+                            }
+                        };
+                        let name = ["raw", "tok", "part"][kind];
+                        let _ = match kind {
+                            0 => s.update_raw(text.clone()),
+                            1 => s.update_tokenized(&text),
+                            _ => s.update_partial_annotation(&text),
+                        };
+                        cur = None;
+                        ops.push(format!("{name}:{}", hexs(&text)));
+                    }
+                    3 | 4 => {
+                        let k = r.below(preds.len());
+                        preds[k].predict(&mut s);
+                        cur = Some(k);
+                        ops.push(format!("pred:{k}"));
+                    }
+                    5 => {
+                        if cur.map_or(true, |k| can_fill[k]) {
+                            s.fill_tags();
+                            ops.push("fill".into());
+                        }
+                    }
+                    6 => {
+                        let k = r.below(4);
+                        s.reset_tags(k);
+                        ops.push(format!("reset:{k}"));
+                    }
+                    7 => {
+                        let nb = s.boundaries().len();
+                        if nb > 0 {
+                            let i = r.below(nb);
+                            let b = *r.pick(&['N', 'W', 'U']);
+                            s.boundaries_mut()[i] = crate::sent::label_of(b).unwrap();
+                            ops.push(format!("setb:{i}:{b}"));
+                        }
+                    }
+                    8 => {
+                        let nt = s.tags().len();
+                        if nt > 0 {
+                            let i = r.below(nt);
+                            if r.chance(1, 3) {
+                                s.tags_mut()[i] = None;
+                                ops.push(format!("sett:{i}:~"));
+                            } else {
+                                s.tags_mut()[i] = Some("z".into());
+                                ops.push(format!("sett:{i}:{}", hexs("z")));
+                            }
+                        }
+                    }
+                    _ => ops.push("obs".into()),
+                }
+            }
+            // the probe: update_raw(x); predict; [fill_tags]; observe
+            let x = gen_text_tags(&mut r, &m1, &alpha, 12);
+            let k = r.below(preds.len());
+            ops.push(format!("raw:{}", hexs(&x)));
+            ops.push(format!("pred:{k}"));
+            if can_fill[k] && r.chance(2, 3) {
+                ops.push("fill".into());
+            }
+            ops.push("obs".into());
+            writeln!(out, "H {CFG} {} {} c08", specs.join("!"), ops.join(",")).unwrap();
+        }
+    }
+}
